@@ -1,12 +1,12 @@
 package main
 
 import (
+	"crypto/sha256"
 	"encoding/json"
 	"fmt"
 	"sort"
 	"strings"
 
-	"github.com/dolthub/dolt/go/store/nbs"
 	"github.com/golang/snappy"
 
 	"verif/harness/internal/hx"
@@ -114,8 +114,10 @@ func classify(j *job) string {
 
 func (ck *checker) violate(j *job, outcome, what string) {
 	key := kindName(j.b) + ":" + classify(j) + ":" + outcome
-	if j.shape == "crcfix" && (outcome == "wrong-data" || outcome == "wrong-address-answered" || outcome == "root-invented") {
-		// the damage was given a recomputed CRC-32C: reads verify the CRC, never H(data) = address
+	if j.shape == "crcfix" && outcome != "panic" && outcome != "misread" {
+		// the damage was given a recomputed CRC-32C: reads verify the CRC, never H(data) = address, so
+		// the damaged record is accepted and processed -- wrong bytes / a changed address or root come
+		// back, or the (now arbitrary) snappy length header drives a huge allocation
 		key = kindName(j.b) + ":" + classify(j) + ":crc-repaired-accepted"
 	}
 	ck.e.Rep.Violate(key, fmt.Sprintf("%s [file kind %s, corruption %s in %s (%s)]", what, j.b.Kind, j.mut.String(), j.region, j.shape), caseOf(j))
@@ -485,7 +487,7 @@ func (ck *checker) compare(j *job) {
 	}
 }
 
-var jrnBuffSize = int(nbs.VerifCorJournalBuffSize())
+var jrnBuffSize = journalBuff
 
 func layoutFor(b *baseInfo) layout {
 	file := hx.Unhex(b.File)
@@ -516,6 +518,8 @@ func (ck *checker) replay(p *pool, raw json.RawMessage) {
 		return
 	}
 	b := &baseInfo{Base: c.Base, stored: map[string]string{}}
+	// workers and the model cache base files by id: a replayed base must not share the id of a generated one
+	b.ID = fmt.Sprintf("replay-%x", sha256.Sum256([]byte(c.Base.File+c.Base.Aux)))[:20]
 	for i := range c.Base.Addrs {
 		b.stored[c.Base.Addrs[i]] = c.Base.Datas[i]
 	}
